@@ -73,6 +73,8 @@ class ArcBasedRoutingProblem(RoutingProblem):
     def enumerate_variables_quicker(self):
         """ Basic operation that needs to be done to keep track of variable counts, indexing """
         num_vars = 0
+        # start from scratch (this may be a re-enumeration after the graph changed)
+        self.var_mapping = []
         # Loop over (i,s,j,t)
         # and check if a variable is allowed (nonzero)
         # Simplification: loop over arcs
@@ -268,6 +270,8 @@ class ArcBasedRoutingProblem(RoutingProblem):
         acol = []
         brhs = []
         row_index = 0
+        # start from scratch (this may be a rebuild after the graph changed)
+        self.constraint_names = []
 
         # Flow conservation constraints (for each (i,s))
         # EXCEPT DEPOT
